@@ -1294,6 +1294,8 @@ def _make_pianoroll(
 
     # Determine the non-zero indices of the piano roll
     if onset_only:
+        # only the onset frame of each note is filled
+        pr_offset = pr_onset + 1
         _idx_fill = np.column_stack([pr_pitch, pr_onset, pr_velocity])
     else:
         pr_offset = np.maximum(pr_onset + 1, pr_offset - (1 if note_separation else 0))
